@@ -317,6 +317,7 @@ Proof.
   - apply andb_true_iff in Ec. destruct Ec as [Ec1 Ec2].
     assert (nz t = 1) by (apply (nz_typ t _ Ec1); discriminate).
     assert (Hc1 := IHe Lowest s0 R1 ltac:(nd)). t_use Hc1.
+    destruct (has_key (lt_val t) fs); [fin|]. cbn [bindP].
     t_next. t_if; [fin|]. t_if; [|fin].
     assert (Hc2 := IHl arr (fields_set (lt_val t) a fs) s2 R3 ltac:(nd)). t_use Hc2. fin.
   - pose proof (T_backup s0 t0 (consumed s) HC0) as TB1.
@@ -377,7 +378,7 @@ Proof.
     t_peek. t_if; [|fin].
     assert (Hc2 := IHc s1 R2 ltac:(nd)). t_use Hc2.
     assert (Hc3 := IHl c (cs ++ [Case a a0]) d s2 R3 ltac:(nd)). t_use Hc3. fin.
-  - t_if; [|fin]. t_peek. t_if; [|fin].
+  - t_if; [|fin]. destruct d as [|dl]; [|fin]. t_peek. t_if; [|fin].
     assert (Hc2 := IHc s0 R1 ltac:(nd)). t_use Hc2.
     assert (Hc3 := IHl c cs a s1 R2 ltac:(nd)). t_use Hc3. fin.
 Qed.
